@@ -1,4 +1,5 @@
 """C19 - time zone database: lock discipline, freshness guards, index freshness (discipline only)."""
+from ..rules_r5 import canon_name
 import re
 from collections import defaultdict
 from .. import mir
@@ -31,6 +32,7 @@ def run(ctx, rep):
     if "T3" not in rep.configs:
         rep.configs.append("T3")
     prog = ctx.prog("Q")
+    canon_name(rep, ctx.prog("T3"), floor=3)
     rep.notes.append("Does not decide history/schedule independence of results or TTL timing.")
     progs = [("Q", prog)]
     if ctx.tier == "thorough":
